@@ -28,6 +28,7 @@ MSG_CLASSES = [
     (r"^recursively defined Ascent macro$", "recursive_macro"),
     (r"^undefined macro$", "undefined_macro"),
     (r"^expected more arguments$|^unexpected token$", "macro_args"),
+    (r"^expected ", "syntax"),
     (r"^unexpected attribute\(s\)$", "unexpected_attr"),
     (r"^unrecognized attribute\.", "unknown_attr"),
     (r"^attribute only allowed in parallel Ascent$", "irp_serial"),
@@ -40,7 +41,7 @@ MSG_CLASSES = [
 ]
 MODEL_CLASS = {
     "EUnexpectedAttr": "unexpected_attr", "EEmptyLattice": "empty_lattice", "EIncludeInSource": "include_in_source",
-    "EUndefinedMacro": "undefined_macro", "EMacroArgs": "macro_args", "EMacroSyntax": "macro_syntax",
+    "EUndefinedMacro": "undefined_macro", "EMacroArgs": "macro_args", "EMacroSyntax": "syntax",
     "ERecursiveMacro": "recursive_macro", "EUndeclared": "undeclared", "EArity": "arity", "EShadow": "shadow",
     "EUnknownAttr": "unknown_attr", "EInterRuleSerial": "irp_serial", "EMultipleDsProg": "multiple_ds",
     "EMultipleDs": "multiple_ds", "EDsOnLattice": "ds_on_lattice", "ENotStratified": "not_stratified",
